@@ -60,7 +60,7 @@ CHECKS = {
     ),
     "C19": dict(
         category="exploration",
-        text="Seeded histories of assemblies (valid, failing at injected crash points, custom .map, other ROM types, CLI runs in sub-directories, the probe's own text under other layouts / defines, torn sources, long sources, file rewrites) executed in one process - working directory and interpreter settings included - before a probe; the probe's result is compared with the same probe alone in a pristine fork and repeated immediately; a sample is cross-checked in fresh interpreters under other PYTHONHASHSEED values.",
+        text="Seeded histories of assemblies (valid, failing at injected crash points, custom .map, other ROM types, CLI runs in sub-directories, the probe's own text under other layouts / defines, torn sources, long sources, file rewrites) executed in one process - working directory and interpreter settings included - before a probe; the probe's result is compared with the same probe alone in a pristine fork and repeated immediately; a sample of these, and systematically every error class and a set of misspelt directives as failing probes, is cross-checked in fresh interpreters under other PYTHONHASHSEED values; half of the failing probes are preceded by a history program that fails the same way.",
         design_ref="DESIGN.md 3.1 C19",
         note="Only public observation points are compared (return/exception, blocks, labels, output files); threads are out of scope; reuse of one Program object is not promised by the statement.",
         technique="deterministic simulation: seeded operation histories with crash injection, pristine-process reference",
